@@ -501,6 +501,18 @@ func (x R) Get() int   { return x.N }
 func (x R) SetN(n int) { x.N = n; x.A[0] = n }
 func (x *R) Inc()      { x.N++ }
 
+// callees that let their parameter escape (escape stream), and makers used as nested-call arguments
+func mkS(n int) S  { return S{N: n, A: [2]int{n + 1, n}} }
+func idS(x S) S    { return x }
+func holdS(x S) *S { return &x }
+func getS(x S) func() S { return func() S { return x } }
+func cntS(x S) func() int {
+	return func() int {
+		x.N++
+		return x.N
+	}
+}
+
 func fnr(y *S) (r S) {
 	r.N = 5
 	y.N = y.N + r.N
